@@ -141,6 +141,18 @@ def run_canary(unit, workdir):
     return True, '', n
 
 
+def _cex_tags(output):
+    m = re.search(r'COUNTEREXAMPLE:\s*((?:\[[^\]]*\]\s*)+)', output)
+    if not m:
+        return []
+    return re.findall(r'C\d{2,3}', m.group(1))
+
+
+def _other_property_only(output, pid):
+    tags = _cex_tags(output)
+    return bool(tags) and pid not in tags
+
+
 def relevant(failure, vspec):
     fns = vspec.get('fns')
     if fns is not None and failure['fn'] not in fns:
@@ -396,6 +408,11 @@ def main(argv=None):
                                          'safety': True, 'at': 'bounded/src/bin/%s.rs' % n['bin'], 'unit': 'native', '_payload': payload})
                     if r.status == 'undecided':
                         undecided.append('native stand-in %s: %s' % (n['bin'], r.output[-400:]))
+                    elif r.status == 'failed' and _other_property_only(r.output, pid):
+                        # a stand-in shared by several properties tags its counterexample with the
+                        # property whose clause failed; this one is not about this property
+                        log('[native] %s: counterexample tagged for another property (%s); not a verdict on %s'
+                            % (n['bin'], ', '.join(_cex_tags(r.output)), pid))
                     elif r.status == 'failed':
                         ob = 'native.%s' % n['bin']
                         payload = {'property_id': pid, 'obligation': ob, 'violation': True,
